@@ -434,3 +434,58 @@ def unzip_gathers(fn: ast.FunctionDef):
 
     fn = T().visit(fn)
     return ast.fix_missing_locations(fn)
+
+
+# ------------------------------------------------------------------------------------------ local closures called as statements
+def inline_local_closures(fn: ast.FunctionDef):
+    """`def g(x): BODY` nested in fn, used only as statements `g(v)` with plain names as arguments, BODY without return value / yield:
+    every such statement is replaced by BODY[x := v] and the definition is dropped. Returns a rewritten deep copy."""
+    fn = copy.deepcopy(fn)
+    nested = [s for s in fn.body if isinstance(s, ast.FunctionDef)]
+    for g in nested:
+        a = g.args
+        if a.vararg or a.kwarg or a.kwonlyargs or a.defaults or a.posonlyargs:
+            continue
+        if any(isinstance(x, (ast.Yield, ast.YieldFrom)) or (isinstance(x, ast.Return) and x.value is not None) or isinstance(x, (ast.Nonlocal, ast.Global)) for x in ast.walk(g)):
+            continue
+        params = [p.arg for p in a.args]
+        uses = [x for x in ast.walk(fn) if isinstance(x, ast.Name) and x.id == g.name and isinstance(x.ctx, ast.Load)]
+        calls = [x for x in ast.walk(fn) if isinstance(x, ast.Expr) and isinstance(x.value, ast.Call) and isinstance(x.value.func, ast.Name) and x.value.func.id == g.name
+                 and not x.value.keywords and len(x.value.args) == len(params) and all(isinstance(z, ast.Name) for z in x.value.args)]
+        if not calls or len(calls) != len(uses):
+            continue
+        body = [s for s in g.body if not (isinstance(s, ast.Expr) and isinstance(s.value, ast.Constant))]
+
+        def expand(call):
+            m = dict(zip(params, [z.id for z in call.value.args]))
+
+            class R(ast.NodeTransformer):
+                def visit_Name(self, n):
+                    return ast.copy_location(ast.Name(id=m[n.id], ctx=n.ctx), call) if n.id in m else n
+
+            out = [R().visit(copy.deepcopy(s)) for s in body]
+            for s in out:
+                for x in ast.walk(s):
+                    if hasattr(x, "lineno"):
+                        x.lineno, x.end_lineno = call.lineno, getattr(call, "end_lineno", call.lineno)
+            return out
+
+        ids = {id(c) for c in calls}
+
+        def splice(stmts):
+            out = []
+            for st in stmts:
+                if id(st) in ids:
+                    out.extend(expand(st))
+                    continue
+                if st is g:
+                    continue
+                for fld in ("body", "orelse", "finalbody"):
+                    blk = getattr(st, fld, None)
+                    if isinstance(blk, list) and blk and isinstance(blk[0], ast.stmt):
+                        setattr(st, fld, splice(blk))
+                out.append(st)
+            return out
+
+        fn.body = splice(fn.body)
+    return ast.fix_missing_locations(fn)
